@@ -170,6 +170,12 @@ def run_scenario(spec, scn):
 def work(job):
     prop, spec, profile, seeds, cfg, sample_every = job
     faulthandler.dump_traceback_later(1500, exit=True)
+    try:      # a runaway time axis must fail fast instead of eating the box
+        import resource
+        lim = int(os.environ.get('GPSIM_AS_GB', '6')) << 30
+        resource.setrlimit(resource.RLIMIT_AS, (lim, lim))
+    except Exception:      # noqa
+        pass
     from . import gen, execu
     execu.gp()
     ora = oracle_of(spec['oracle'])
